@@ -64,7 +64,7 @@ pub fn gen_case4(prop: &str, seed: u64, thorough: bool, rng: &mut Rng) -> Case {
             let mut ops = vec![];
             for _ in 0..n {
                 let second = cfg.second_index_reader && rng.chance(1, 2);
-                let op = match rng.weighted(&[18, 14, 8, 6, 14, 10, 8, 6, 10, 6, 6]) {
+                let op = match rng.weighted(&[18, 14, 8, 6, 14, 10, 8, 6, 10, 6, 6, 6]) {
                     0 => Op::CreateWriter { kind: 0, second_index: second },
                     1 => Op::DropWriter,
                     2 => Op::Rollback,
@@ -75,7 +75,8 @@ pub fn gen_case4(prop: &str, seed: u64, thorough: bool, rng: &mut Rng) -> Case {
                     7 => Op::KillWorker,
                     8 => Op::Add(g.doc(cfg.nkeys)),
                     9 => Op::Commit,
-                    _ => Op::FaultyRollback,
+                    10 => Op::FaultyRollback,
+                    _ => Op::WaitMergesRace,
                 };
                 ops.push(op);
             }
@@ -641,22 +642,34 @@ fn lock_op(e: &mut Exec, op: &Op) {
             }
             e.out.probe("race_create");
             let results: Arc<StdMutex<Vec<(String, Option<(u64, u64)>, Option<String>)>>> = Arc::new(StdMutex::new(vec![]));
+            let stamps: Arc<StdMutex<Vec<(String, u64)>>> = Arc::new(StdMutex::new(vec![]));
             let mut hs = vec![];
+            let mut contender_docs: Vec<(String, DocSpec)> = vec![];
             for t in 0..*n {
                 let idx = if t % 2 == 1 { pick_index(e, true) } else { e.index.clone() };
                 let cfg2 = cfg.clone();
                 let res = results.clone();
                 let name = format!("contender{t}");
                 let name2 = name.clone();
+                let stamps2 = stamps.clone();
+                let cfields = e.fields.clone();
+                let cdoc = DocSpec { uid: 6_000_000 + sched::step() * 8 + t as u64, key: 9, body: vec![4], tag: 0, sortv: None, js: 0 };
+                contender_docs.push((format!("contender{t}"), cdoc.clone()));
                 let h = shuttle::thread::Builder::new().name(name).spawn(move || {
                     match idx.writer_with_options::<tantivy::TantivyDocument>(writer_opts(0, &cfg2)) {
-                        Ok(w) => {
+                        Ok(mut w) => {
                             let a = sched::step();
-                            shuttle::thread::yield_now();
+                            // the holder works with its writer: its commit must not be lost, whoever
+                            // gets the lock next
+                            let mut err = None;
+                            match w.add_document(cdoc.to_tantivy(&cfields)).and_then(|_| w.commit()) {
+                                Ok(st) => stamps2.lock().unwrap().push((name2.clone(), st)),
+                                Err(x) => err = Some(format!("contender add/commit failed: {x}")),
+                            }
                             shuttle::thread::yield_now();
                             let b = sched::step();
                             drop(w);
-                            res.lock().unwrap().push((name2, Some((a, b)), None));
+                            res.lock().unwrap().push((name2, Some((a, b)), err));
                         }
                         Err(err) => {
                             let lf = is_lock_failure(&err);
@@ -686,6 +699,20 @@ fn lock_op(e: &mut Exec, op: &Op) {
             }
             if holders.is_empty() {
                 e.out.violate("C18", "writer_refused_while_unlocked", format!("{n} racing creations on an unlocked index all failed"));
+            }
+            // every holder committed one document: all of them are in the index afterwards
+            let mut hs2: Vec<&(String, Option<(u64, u64)>, Option<String>)> = holders.clone();
+            hs2.sort_by_key(|h| h.1.unwrap().0);
+            for h in hs2 {
+                if let Some((_, d)) = contender_docs.iter().find(|(n, _)| *n == h.0) {
+                    e.specs.insert(d.uid, d.clone());
+                    e.model.add(d.clone());
+                    let st = stamps.lock().unwrap().iter().find(|(n, _)| *n == h.0).map(|x| x.1);
+                    e.model.commit(Some(st.unwrap_or(0)), None);
+                }
+            }
+            if e.out.violations.is_empty() {
+                e.check_content("after_racing_writers");
             }
             for a in &holders {
                 for b in &holders {
@@ -772,6 +799,90 @@ fn lock_op(e: &mut Exec, op: &Op) {
                             }
                         }
                     }
+                }
+            }
+        }
+        Op::WaitMergesRace => {
+            if e.writer.is_none() {
+                return;
+            }
+            // make sure there is something to merge, start the merge and leave it pending
+            for k in 0..2u64 {
+                e.exec_op(&Op::Add(DocSpec { uid: 7_000_000 + sched::step() * 4 + k, key: 8, body: vec![5], tag: 0, sortv: None, js: 0 }));
+                e.exec_op(&Op::Commit);
+            }
+            e.exec_op(&Op::Merge { sel: 7, wait: false });
+            if e.stop || !e.out.violations.is_empty() {
+                return;
+            }
+            let old_max_task = sched::OUT.with(|o| o.borrow().max_tasks);
+            let done = Arc::new(AtomicBool::new(false));
+            let results: Arc<StdMutex<Vec<(String, u64)>>> = Arc::new(StdMutex::new(vec![]));
+            let mut hs = vec![];
+            for t in 0..2usize {
+                let idx = if t % 2 == 1 { pick_index(e, true) } else { e.index.clone() };
+                let cfg2 = cfg.clone();
+                let done2 = done.clone();
+                let res = results.clone();
+                let name = format!("contender{t}");
+                let name2 = name.clone();
+                if let Ok(h) = shuttle::thread::Builder::new().name(name).spawn(move || {
+                    for _ in 0..6 {
+                        if done2.load(Ordering::SeqCst) {
+                            break;
+                        }
+                        if let Ok(w) = idx.writer_with_options::<tantivy::TantivyDocument>(writer_opts(0, &cfg2)) {
+                            let a = sched::step();
+                            drop(w);
+                            res.lock().unwrap().push((name2.clone(), a));
+                            break;
+                        }
+                        shuttle::thread::yield_now();
+                    }
+                }) {
+                    hs.push(h);
+                }
+            }
+            e.pending_merges.clear();
+            let w = e.writer.take().unwrap();
+            let r = catch(|| w.wait_merging_threads());
+            let end = sched::step();
+            done.store(true, Ordering::SeqCst);
+            for h in hs {
+                let _ = h.join();
+            }
+            e.model.rollback();
+            e.last_stamp = None;
+            e.txn_ops = 0;
+            e.out.probe("wait_merges_race");
+            match r {
+                Err(p) => e.out.violate("C18", "panic_on_calling_thread", format!("wait_merging_threads: {p}")),
+                Ok(Err(x)) => e.out.violate("C18", "api_error_without_fault", format!("wait_merging_threads: {x}")),
+                Ok(Ok(())) => {}
+            }
+            // Sound evidence of two writers alive: a background thread of the previous writer (task id
+            // below those created for this race) still issued a storage operation after another writer
+            // had been created. (Comparing with the step at which the call returned would not be sound:
+            // the lock is released inside the call.)
+            let _ = end;
+            for (who, a) in results.lock().unwrap().iter() {
+                let late: Option<String> = e.dir.with(|st| {
+                    st.log.iter().rev().find_map(|r| {
+                        let name = &st.tasks[r.task as usize];
+                        let id: usize = name.rsplit('#').next().and_then(|x| x.parse().ok()).unwrap_or(usize::MAX);
+                        if r.step > *a && id != 0 && id < old_max_task {
+                            Some(format!("{name} {:?} {} at step {}", r.kind, st.paths[r.path as usize].display(), r.step))
+                        } else {
+                            None
+                        }
+                    })
+                });
+                if let Some(l) = late {
+                    e.out.violate(
+                        "C18",
+                        "two_writers_alive",
+                        format!("{who} created a writer at step {a} while a thread of the previous writer was still working: {l}"),
+                    );
                 }
             }
         }
@@ -1275,7 +1386,7 @@ fn linearize(base: &[DocSpec], recs: &[ProdRec], observed: &dump::Dump, f: &Fiel
 pub fn exec_special4(e: &mut Exec, op: &Op) {
     match op {
         Op::Reload(_) | Op::Hold(_) | Op::Recheck => main_reader_op(e, op),
-        Op::CreateWriter { .. } | Op::NewWriterAttempt { .. } | Op::DropWriter | Op::RaceCreate { .. } | Op::KillWorker | Op::FaultyRollback => lock_op(e, op),
+        Op::CreateWriter { .. } | Op::NewWriterAttempt { .. } | Op::DropWriter | Op::RaceCreate { .. } | Op::KillWorker | Op::FaultyRollback | Op::WaitMergesRace => lock_op(e, op),
         Op::Fork(ps) => fork_op(e, ps),
         _ => {}
     }
